@@ -192,6 +192,17 @@ def _lenmat(A):
     return Lm
 
 
+def _bcall(res, name, f, X, *a, t=5.0):
+    """call f(X, *a) under the watchdog (10x retry) and check that the array object actually passed is left untouched"""
+    X0 = X.copy()
+    res['_dtype'] = str(X0.dtype)
+    st, out = call(f, X, *a, t=t, retry=10)
+    same = X.shape == X0.shape and X.dtype == X0.dtype and bool(np.all((X == X0) | ((X != X) & (X0 != X0))))
+    if not same:
+        res['fails'].append((name.split(':')[0], 'input-modified', {'dtype': str(X0.dtype)}))
+    return st, out
+
+
 def _status(res, func, st, out, case):
     """record exceptions / timeouts of an in-domain call; returns True when the call produced a value"""
     base = func.split(':')[0]
@@ -204,7 +215,9 @@ def _status(res, func, st, out, case):
         res['stats']['timeout:' + base] = res['stats'].get('timeout:' + base, 0) + 1
         res['fails'].append((base, 'does-not-return', {'after_s': 'budget x10'}))
     else:
-        res['fails'].append((func, 'raises', {'exception': out}))
+        dt = res.get('_dtype', 'float64')
+        res['fails'].append((func, 'raises', {'exception': out, 'dtype': dt,
+                                              'cond': {'storage': 'float' if dt.startswith('float') else 'int'}}))
     return False
 
 
@@ -324,7 +337,7 @@ def _floyd_block(bct, res, case, A, transform, Lm, oracle, best, tol, exact, rou
     Lm = the true length matrix, oracle = closure, best = exact-k table"""
     n = len(A)
     name = 'distance_wei_floyd' + ('' if transform is None else ':' + transform)
-    st, out = call(bct.distance_wei_floyd, _rep(A, case, allow_int=transform is None), transform, t=5, retry=10)
+    st, out = _bcall(res, name, bct.distance_wei_floyd, _rep(A, case, allow_int=transform is None, f32=transform is None), transform)
     if not _status(res, name, st, out, case):
         return
     SPL, hops, Pmat = out
@@ -384,7 +397,7 @@ def _floyd_block(bct, res, case, A, transform, Lm, oracle, best, tol, exact, rou
             res['stats']['floyd_line_without_paths'] = res['stats'].get('floyd_line_without_paths', 0) + 1
         res['lines'].append((line, spec))
     if n >= 2 and rout:
-        st, out = call(bct.rout_efficiency, np.array(A, dtype=float), transform, t=5, retry=10)
+        st, out = _bcall(res, 'rout_efficiency', bct.rout_efficiency, _rep(A, case, allow_int=transform is None, f32=False), transform)
         rname = 'rout_efficiency' + ('' if transform is None else ':' + transform)
         if _status(res, rname, st, out, case):
             GE, Erout, _ = out
@@ -397,11 +410,24 @@ def _floyd_block(bct, res, case, A, transform, Lm, oracle, best, tol, exact, rou
                                      [('GE', 'tol', float(GE)), ('Erout', 'tolmat', [float(x) for x in np.asarray(Erout, dtype=float).ravel()])]))
 
 
-def _rep(A, case, allow_int=True):
-    """representation axis: the same matrix as float64 / int64 / bool, C / Fortran order / transposed view"""
+# reachdist stores inf into a copy of its argument: integer / bool storage raises OverflowError (open finding
+# C03-reachdist-int-dtype until repaired); flip to True once the repair is in /repo so that the dtype axis reaches it too
+REACHDIST_INT_OK = True
+DTYPES_BIN = ['float64', 'int64', 'bool', 'uint8', 'int32', 'float32']
+DTYPES_INT = ['float64', 'int64', 'int32', 'uint8', 'float32']
+
+
+def _rep(A, case, allow_int=True, f32=True):
+    """representation axis: the same matrix as float64 / float32 / int64 / int32 / uint8 / bool storage (only when the values are
+    representable exactly), C / Fortran order / transposed view"""
     dt, order = case.get('rep', ('float64', 'C'))
     X = np.array(A, dtype=float)
-    if dt != 'float64' and allow_int and np.all(X == np.round(X)) and (dt != 'bool' or np.all((X == 0) | (X == 1))):
+    if dt == 'float32':
+        # float32 storage only where the routine's arithmetic stays exact (sums of small integers); never where it divides
+        if f32 and np.array_equal(X.astype(np.float32).astype(float), X):
+            X = X.astype(np.float32)
+    elif dt != 'float64' and allow_int and np.all(X == np.round(X)) and np.all(X >= 0) and \
+            (dt != 'bool' or np.all((X == 0) | (X == 1))) and (dt != 'uint8' or np.all(X < 256)):
         X = X.astype(dt)
     if order == 'F':
         X = np.asfortranarray(X)
@@ -431,7 +457,7 @@ def _charpath_block(bct, res, case, D, oracle, fname, lean=True):
         return
     for incdiag in (False, True):
         for incinf in (True, False):
-            Din = _rep(D, case, allow_int=False)
+            Din = _rep(D, case, allow_int=False, f32=False)
             D0 = Din.copy()
             st, out = call(bct.charpath, Din, incdiag, incinf, t=3, retry=10)
             if not _status(res, 'charpath', st, out, case):
@@ -492,12 +518,12 @@ def run_case(case):
             _run_probe(bct, case, res)
     except Timeout:
         res['stats']['timeout:harness'] = 1
+    res.pop('_dtype', None)
     return res
 
 
 def _run_bin(bct, case, res):
     A = np.array(case['A'], dtype=float); n = len(A)
-    A0 = A.copy()
     oracle = bfs_oracle(A)
     Lm = _lenmat(A)
     best = exact_k_lengths(Lm, max(1, n - 1))
@@ -514,26 +540,26 @@ def _run_bin(bct, case, res):
     res['stats']['weighted_rep'] = int(case.get('wrep') is not None)
     Aline = mstr(A); Awline = mstr(Aw)
     outs = {}
-    st, out = call(bct.distance_bin, _rep(Aw, case), t=5, retry=10)
+    st, out = _bcall(res, 'distance_bin', bct.distance_bin, _rep(Aw, case))
     if _status(res, 'distance_bin', st, out, case):
         outs['distance_bin'] = np.asarray(out, dtype=float)
         _cmp_dist(res, 'distance_bin', out, oracle)
-    st, out = call(bct.breadthdist, _rep(Aw, case), t=5, retry=10)
+    st, out = _bcall(res, 'breadthdist', bct.breadthdist, _rep(Aw, case))
     if _status(res, 'breadthdist', st, out, case):
         R, D = out; outs['breadthdist'] = (np.asarray(R), np.asarray(D, dtype=float))
         _cmp_dist(res, 'breadthdist', D, oracle, diag_zero=False)
         _cmp_flag(res, 'breadthdist', R, D, oracle)
-    st, out = call(bct.reachdist, _rep(Aw, case, allow_int=False), t=5, retry=10)      # float only: it stores inf into a copy of its argument
+    st, out = _bcall(res, 'reachdist', bct.reachdist, _rep(Aw, case, allow_int=REACHDIST_INT_OK))      # float only: it stores inf into a copy of its argument
     if _status(res, 'reachdist', st, out, case):
         R, D = out; outs['reachdist'] = (np.asarray(R), np.asarray(D, dtype=float))
         _cmp_dist(res, 'reachdist', D, oracle, diag_zero=False)
         _cmp_flag(res, 'reachdist', R, D, oracle)
     if case.get('opt_nobin'):       # non-default option on a binary matrix: ensure_binary=False must not change anything
-        st, out = call(bct.reachdist, _rep(A, case, allow_int=False), False, t=5, retry=10)
+        st, out = _bcall(res, 'reachdist', bct.reachdist, _rep(A, case, allow_int=REACHDIST_INT_OK), False)
         if _status(res, 'reachdist', st, out, case):
             _cmp_dist(res, 'reachdist', out[1], oracle, diag_zero=False)
             _cmp_flag(res, 'reachdist', out[0], out[1], oracle)
-    st, out = call(bct.distance_wei, _rep(A, case), t=5, retry=10)
+    st, out = _bcall(res, 'distance_wei', bct.distance_wei, _rep(A, case))
     if _status(res, 'distance_wei', st, out, case):
         D, B = out; outs['distance_wei'] = (np.asarray(D, dtype=float), np.asarray(B, dtype=float))
         _cmp_dist(res, 'distance_wei', D, oracle)
@@ -556,7 +582,7 @@ def _run_bin(bct, case, res):
                               ('cert', 'exact', '111')]))
     if n >= 1:
         s = int(case.get('src', 0)) % n
-        st, out = call(bct.breadth, Aw.copy(), s, t=3, retry=10)
+        st, out = _bcall(res, 'breadth', bct.breadth, _rep(Aw, case), s, t=3)
         if _status(res, 'breadth', st, out, case):
             dist, branch = out
             want = oracle[s].copy()
@@ -576,7 +602,7 @@ def _run_bin(bct, case, res):
                 res['fails'].append(('breadth', 'branch-predecessor', {'source': s, 'branch': istr(br), 'dist': mstr(want)}))
             res['lines'].append(('breadth n=%d A=%s s=%d' % (n, Awline, s), [('dist', 'exact', mstr(dist)), ('branch', 'exact', istr(branch))]))
     if n >= 2:
-        st, out = call(bct.efficiency_bin, _rep(Aw, case), t=5, retry=10)
+        st, out = _bcall(res, 'efficiency_bin', bct.efficiency_bin, _rep(Aw, case))
         if _status(res, 'efficiency_bin', st, out, case):
             want = meaninv_offdiag(oracle)
             if not close(float(out), want):
@@ -586,8 +612,6 @@ def _run_bin(bct, case, res):
             if nm in outs:
                 Dn = outs[nm] if nm == 'distance_bin' else outs[nm][1] if nm in ('breadthdist', 'reachdist') else outs[nm][0]
                 _charpath_block(bct, res, case, Dn, oracle, nm, lean=(nm != 'distance_wei'))
-    if not np.array_equal(A, A0):
-        res['fails'].append(('distance', 'input-modified', {}))
 
 
 def _run_seq(bct, case, res):
@@ -752,7 +776,7 @@ def _run_wei(bct, case, res):
             ties += int(np.any(np.isfinite(oracle) & (best[k1] == oracle) & (best[k2] == oracle) & offdiag(n)))
     res['stats']['ties'] = int(ties > 0)
     only = case.get('only') == 'floyd'
-    st, out = ('skip', None) if only else call(bct.distance_wei, _rep(Lm0, case), t=5, retry=10)
+    st, out = ('skip', None) if only else _bcall(res, 'distance_wei', bct.distance_wei, _rep(Lm0, case))
     if not only and _status(res, 'distance_wei', st, out, case):
         D, B = out
         _cmp_dist(res, 'distance_wei', D, oracle)
@@ -765,8 +789,8 @@ def _run_wei(bct, case, res):
         # lengths are powers of two: the weight matrix W = 1/L is exact in floats, and so is 1/W
         W = np.zeros_like(Lm0); W[Lm0 != 0] = 1.0 / Lm0[Lm0 != 0]
         _floyd_block(bct, res, case, W, 'inv', Lm, oracle, best, 0.0, True, rout=not only)
-        if not only and n >= 2 and np.all(W <= 1):
-            st, out = call(bct.efficiency_wei, W.copy(), t=5, retry=10)
+        if not only and n >= 2:        # efficiency_wei_spec covers every non-negative weight matrix (weights > 1 included)
+            st, out = _bcall(res, 'efficiency_wei', bct.efficiency_wei, _rep(W, case, f32=False))
             if _status(res, 'efficiency_wei', st, out, case):
                 want = meaninv_offdiag(oracle)
                 if not close(float(out), want):
@@ -805,7 +829,11 @@ def _run_nav(bct, case, res):
     mh = case.get('max_hops')
     # with max_hops given the walk is bounded (at most max_hops + 2 steps per pair): it must return (retry, then a verdict);
     # with max_hops=None termination is not claimed: counted, and bounded by the 20 % rule of timeout_rates
-    st, out = call(bct.navigation_wu, L.copy(), Dm.copy(), mh, t=case.get('t', 4.0), retry=0 if mh is None else 10)
+    Lin, Din = _rep(L, case), _rep(Dm, case)
+    L0, D0 = Lin.copy(), Din.copy()
+    st, out = call(bct.navigation_wu, Lin, Din, mh, t=case.get('t', 4.0), retry=0 if mh is None else 10)
+    if not (np.array_equal(Lin, L0) and np.array_equal(Din, D0)):
+        res['fails'].append(('navigation_wu', 'input-modified', {}))
     res['stats']['calls:navigation_wu'] = 1
     if st == 'timeout':
         if mh is not None:
@@ -871,21 +899,36 @@ def _run_bad(bct, case, res):
     res['stats']['malformed:' + what] = 1
     if what == 'bad-transform':
         st, out = call(bct.distance_wei_floyd, A.copy(), 'sqrt', t=3, retry=10)
+        res['stats']['calls:distance_wei_floyd'] = res['stats'].get('calls:distance_wei_floyd', 0) + 1
         if not (st == 'exc' and exc_kind(out) == 'ValueError'):
             res['fails'].append(('distance_wei_floyd', 'rejects-unknown-transform', {'status': st, 'out': str(out)[:100]}))
         res['lines'].append(('floyd n=%d A=%s transform=sqrt' % (n, mstr(A)), [('error', 'exact', 'ValueError')]))
     elif what == 'self-loops':
-        # nonzero diagonal: outside the property's domain (BCT convention: empty diagonal); correspondence only
-        st, out = call(bct.distance_wei_floyd, A.copy(), None, t=3, retry=10)
-        if st == 'ok':
-            SPL, hops, Pmat = out
-            res['lines'].append(('floyd n=%d A=%s transform=none' % (n, mstr(A)),
-                                 [('SPL', 'exact', mstr(SPL)), ('hops', 'exact', istr(hops)), ('P', 'exact', istr(Pmat))]))
-        st, out = call(bct.distance_wei, A.copy(), t=3, retry=10)
-        if st == 'ok':
+        # nonzero diagonal: outside the BCT convention, but the Floyd / Dijkstra / retrieve theorems (NonNeg only), distBin_isDist
+        # and reachdist_correct (no hypothesis) still apply, so these routines are judged by the oracles as everywhere else
+        # (a self-loop never shortens a path); only breadthdist (theorem needs the empty diagonal) is correspondence-only
+        Lm = _lenmat(A)
+        oracle = minplus_closure(Lm)
+        best = exact_k_lengths(Lm, max(1, n - 1))
+        only = case.get('only') == 'floyd'
+        _floyd_block(bct, res, case, A, None, Lm, oracle, best, 0.0, True, rout=False)
+        if only:
+            return
+        st, out = _bcall(res, 'distance_wei', bct.distance_wei, _rep(A, case))
+        if _status(res, 'distance_wei', st, out, case):
+            _cmp_dist(res, 'distance_wei', out[0], oracle)
+            _cmp_hops(res, 'distance_wei', np.asarray(out[1]), oracle, best)
             res['lines'].append(('dijkstra n=%d A=%s' % (n, mstr(A)), [('D', 'exact', mstr(out[0])), ('B', 'exact', istr(out[1]))]))
         B = (A != 0).astype(float)
-        st1, o1 = call(bct.distance_bin, B.copy(), t=3, retry=10); st2, o2 = call(bct.breadthdist, B.copy(), t=3, retry=10); st3, o3 = call(bct.reachdist, B.copy(), t=3, retry=10)
+        horacle = bfs_oracle(B)
+        st1, o1 = _bcall(res, 'distance_bin', bct.distance_bin, _rep(B, case))
+        if _status(res, 'distance_bin', st1, o1, case):
+            _cmp_dist(res, 'distance_bin', o1, horacle)
+        st3, o3 = _bcall(res, 'reachdist', bct.reachdist, _rep(B, case, allow_int=REACHDIST_INT_OK))
+        if _status(res, 'reachdist', st3, o3, case):
+            _cmp_dist(res, 'reachdist', o3[1], horacle, diag_zero=False); _cmp_flag(res, 'reachdist', o3[0], o3[1], horacle)
+        st2, o2 = _bcall(res, 'breadthdist', bct.breadthdist, _rep(B, case))
+        _status(res, 'breadthdist', st2, o2, case)          # must return; values: correspondence only
         if st1 == st2 == st3 == 'ok':
             res['lines'].append(('bin n=%d A=%s' % (n, mstr(B)),
                                  [('D', 'exact', mstr(o1)), ('bR', 'exact', istr(o2[0])), ('bD', 'exact', mstr(o2[1])),
@@ -995,6 +1038,11 @@ def gen_dist_cases(rs, tier):
     for _ in range(6000 if big else 150):
         A = rand_len_graph(rs, 4, float(rs.choice([.4, .6, .8, 1.0])), True, [1, 2, 3])
         add('wei', A, gen='rand-dir-w123-4')
+    # lengths 1/4, 1/2, 1 (and 1/8): the weight matrix 1/L has entries > 1 — efficiency_wei / 'inv' outside the docstring's (0,1]
+    for _ in range(1500 if big else 60):
+        n = int(rs.randint(3, 8))
+        A = rand_len_graph(rs, n, float(rs.choice([.4, .6, .9])), bool(rs.rand() < .5), [.125, .25, .5, 1])
+        add('wei', A, gen='rand-weights-gt1')
     # --- random larger
     nr = 2500 if big else 130
     for _ in range(nr):
@@ -1049,7 +1097,7 @@ def gen_dist_cases(rs, tier):
         n = int(rs.randint(60, 200))
         add('big', rand_len_graph(rs, n, float(rs.choice([1.5, 3, 6])) / n, bool(rs.rand() < .5), [1]), gen='rand-big')
     # --- malformed stream
-    for _ in range(12 if not big else 60):
+    for _ in range(45 if not big else 300):
         n = int(rs.randint(2, 7))
         A = rand_len_graph(rs, n, .5, True, [1, 2, 3])
         if rs.rand() < .3:
@@ -1086,7 +1134,7 @@ def gen_dist_cases(rs, tier):
     # representation axis for a third of the binary / integer-length cases: dtype, memory order; scale (exact power of two)
     for c in cases:
         if c['kind'] in ('bin', 'wei') and rs.rand() < .35:
-            dts = ['float64', 'int64', 'bool'] if c['kind'] == 'bin' else ['float64', 'int64']
+            dts = DTYPES_BIN if c['kind'] == 'bin' else DTYPES_INT
             c['rep'] = (dts[rs.randint(len(dts))], ['C', 'F', 'T'][rs.randint(3)])
         if c['kind'] == 'wei' and rs.rand() < .15:
             k = float(2.0 ** int(rs.choice([-3, 3, 10])))
@@ -1140,6 +1188,9 @@ def gen_nav_cases(rs, tier):
         A = rand_len_graph(rs, n, float(rs.choice([.2, .35, .5, .8])), directed, [1, 2, 3]) if rs.rand() < .7 else structured(rs, n, directed, [1, 2, 3])
         cases.append({'kind': 'nav', 'A': A.tolist(), 'D': nodal(n, int(rs.randint(3))).tolist(),
                       'max_hops': [None, 1, 2, n][rs.randint(4)], 'gen': 'rand'})
+    for c in cases:      # representation axis (integer lengths and integer nodal distances)
+        if rs.rand() < .35:
+            c['rep'] = (DTYPES_INT[rs.randint(len(DTYPES_INT))], ['C', 'F', 'T'][rs.randint(3)])
     return cases
 
 
